@@ -65,6 +65,18 @@ def mixed_trees(vs):
     return out
 
 
+def dup_trees(vs):
+    """Root with the *same* partition listed twice (arity-2 sum over two products that split the scope
+    identically), the second time also with the sub-regions listed in reverse order."""
+    out = []
+    for t in single_trees(vs):
+        if isinstance(t, int):
+            continue
+        out.append(("M", [t[1], t[1]]))
+        out.append(("M", [t[1], list(reversed(t[1]))]))
+    return out
+
+
 def tree_name(t):
     if isinstance(t, int):
         return str(t)
@@ -218,6 +230,8 @@ def trees_upto(nmax, mixed=True):
         out.extend(single_trees(vs))
         if mixed and n >= 3:
             out.extend(mixed_trees(vs))
+        if mixed and n >= 2:
+            out.extend(dup_trees(vs))
     return out
 
 
